@@ -22,7 +22,9 @@ def run(ctx):
         "currentdate) is in the reader's class tuple and defines args_as_tuple, and every kind the builder can negate "
         "has a folding branch in the reader; (B2) the read-back path does not recover values by splitting rendered text "
         "on commas or by deciding 'list or string' from the presence of a comma; (B3) the three getters obtain the "
-        "filter through getfilter (which unwraps a disabled filter), never through filters[...]['content'] directly.")
+        "filter through getfilter (which unwraps a disabled filter), never through filters[...]['content'] directly; (F1-F6, "
+        "shared with C06) the rendered script a set is reloaded from requires every extension it uses and carries user values only "
+        "inside escaped string literals.")
     ctx.not_decided = "equality of what is read back with what was supplied, for all values and combinations (behavioural)."
     gc = R.m.get("get_filter_conditions")
     ga = R.m.get("get_filter_actions")
@@ -176,6 +178,10 @@ def run(ctx):
     from .c12 import o2, o5
     o2(ctx, R)
     o5(ctx, R)
+    # "... and on a set reloaded from its rendered script": values must come out of the renderer as string literals
+    # (F1-F6 of C06: the require line covers every tag used, values are quoted and escaped)
+    from .c06 import factory_rules
+    factory_rules(ctx, R, PR)
     gf = R.m["getfilter"]
     s = norm(gf.node)
     if "['enabled']" in s and ".children[0]" in s:
